@@ -256,6 +256,11 @@ def run(ck):
     from props import C01 as _C01x
 
     _cmx.import_results(ck, _C01x, "3", "dispatch_events", "3")
+    # a Disable that reaches the dispatcher reaches the source and the lifecycle set (no "not registered, nothing to do"
+    # shortcut from a flag that reregister does not maintain): shared with C14.2
+    from props import C14 as _C14x
+
+    _C14x.lifecycle_set_follows(ck, "3")
 
     # ---- clause 5: combination law --------------------------------------------------------------
     # decided by evaluating the MIR of `|` and `|=` on all 16 pairs of PostAction values (engine/bits/finite_eval.py):
